@@ -11,7 +11,6 @@ import (
 	"path/filepath"
 	"regexp"
 	"sort"
-	"strings"
 	"sync"
 	"time"
 
@@ -91,10 +90,44 @@ func (h *HookState) Install() {
 	globalMu.Lock()
 	globalHooks = h
 	globalMu.Unlock()
-	verifhook.Set(func(site string, kv ...any) { h.hit(site, kv) })
+	SetHandler(func(site string, kv ...any) { h.hit(site, kv) })
 }
 
-func Uninstall() { verifhook.Set(nil) }
+func Uninstall() { SetHandler(nil) }
+
+// SetHandler installs a hook handler (nil: none). Whatever handler a check installs, the passes of the refreshers that have
+// returned are counted per checker, so that Provision can wait for the pass which the ticker goroutine runs right after its
+// start: left alone, that pass may be scheduled late (a loaded machine) and then re-fetch a location in the middle of a replayed
+// history, which no step of the specification accounts for.
+func SetHandler(h func(site string, kv ...any)) {
+	verifhook.Set(func(site string, kv ...any) {
+		if site == "crl.update.exit" && len(kv) > 0 {
+			passMu.Lock()
+			passExits[kv[0]]++
+			passMu.Unlock()
+		}
+		if h != nil {
+			h(site, kv...)
+		}
+	})
+}
+
+var (
+	passMu    sync.Mutex
+	passExits = map[any]int{}
+)
+
+func passesReturned(checker any) int {
+	passMu.Lock()
+	defer passMu.Unlock()
+	return passExits[checker]
+}
+
+func forgetChecker(checker any) {
+	passMu.Lock()
+	delete(passExits, checker)
+	passMu.Unlock()
+}
 
 func (h *HookState) hit(site string, kv []any) {
 	h.mu.Lock()
@@ -340,9 +373,14 @@ func (w *World) Provision() error {
 		return err
 	}
 	w.V = v
-	if w.Hooks != nil && v.VerifCRLChecker() != nil && v.VerifCRLChecker().VerifRepository() != nil {
+	if ch := v.VerifCRLChecker(); ch != nil && ch.VerifRepository() != nil {
 		// the ticker goroutine runs one (possibly skipped) pass immediately
-		w.Hooks.WaitCount("crl.update.exit", exits+1, 20*time.Second)
+		if w.Hooks != nil {
+			w.Hooks.WaitCount("crl.update.exit", exits+1, 20*time.Second)
+		}
+		for deadline := time.Now().Add(20 * time.Second); passesReturned(ch) == 0 && time.Now().Before(deadline); {
+			time.Sleep(time.Millisecond)
+		}
 	}
 	return nil
 }
@@ -353,6 +391,9 @@ func (w *World) Cleanup() error {
 	}
 	v := w.V
 	w.V = nil
+	if ch := v.VerifCRLChecker(); ch != nil {
+		defer forgetChecker(ch)
+	}
 	return v.Cleanup()
 }
 
@@ -380,7 +421,7 @@ func (w *World) Handshake(chains [][]*x509.Certificate) (r Result) {
 	if err == nil {
 		return Result{Verdict: Accept}
 	}
-	if strings.Contains(err.Error(), "revoked") {
+	if isRevokedErr(err) {
 		return Result{Verdict: Revoked, Err: err.Error()}
 	}
 	return Result{Verdict: Error, Err: err.Error()}
